@@ -2,21 +2,24 @@
   Lengths of segments, mirrored expression by expression from `crates/geom/src`:
   * `LineSegment::length` is `Seg.length` (`Model/Geom/Basic.lean`);
   * `QuadraticBezierSegment::length` (`quadratic_bezier.rs`): closed form ported from kurbo
-    (Raph Levien's analytical arclength) with the "almost straight" branch (3-point
-    Legendre–Gauss quadrature) and the "sharp turn" branch (`b·a^(-1/2) + 2√c < EPSILON`);
+    (Raph Levien's analytical arclength) with the "almost straight" branch (`a ≤ 1e-4·c`: 3-point
+    Legendre–Gauss quadrature on differences) and the "sharp turn" branch
+    (`b·a^(-1/2) + 2√c ≤ EPSILON·2√c`, or the logarithm's numerator not positive);
+    as of /repo 7d678f98 (`sqrt(a+b+c)` is `|to − ctrl|`, `2a+b` is `2 d2·(to − ctrl)`);
   * `CubicBezierSegment::approximate_length` (`cubic_bezier.rs`): sum of `quad.length()` over
     `for_each_quadratic_bezier(tolerance)`;
   * `Arc::approximate_length` (`arc.rs`): sum of `segment.length()` over `for_each_flattened(tolerance)`;
   * `Segment::approximate_length` glue (`segment.rs` `impl_segment!`, `line.rs`):
     line, quadratic → `length()`; cubic, arc → `approximate_length(tolerance)`.
 
-  libm calls made by the Rust code (through `num_traits::Float`): `sqrt`, `powf` (`a.powf(-0.5)`),
-  `powi(3)` (compiled to two multiplications `(x·x)·x`), `ln`.
+  libm calls made by the Rust code (through `num_traits::Float`): `sqrt`, `powf` (`a.powf(-0.5)`), `ln`.
   Constants `S::value(c)` are `f32` literals widened to `S` (`FlatConst.value`); `S::EPSILON` is
   lyon's own constant (`FlatConst.epsilon`: 1e-4 / 1e-8), not the machine epsilon.
 
-  Degenerate input: for `from = ctrl = to` the Rust code evaluates `0^(-1/2) = ∞`, `0·∞ = NaN` and
-  returns NaN; the float instances reproduce that through the same expression tree.
+  Degenerate input: `from = ctrl = to` has `a = c = 0`, takes the quadrature branch (`0 ≤ 1e-4·0`) and
+  gets length `0` (before /repo 7d678f98 the closed form was taken: `0^(-1/2) = ∞`, `0·∞ = NaN`).
+  A NaN/∞ in the closed form (`a^(-1/2)` overflowing, NaN coordinates) makes `num > 0` false and
+  selects `v0`, through the same expression tree on the float instances.
 
   Mathlib-free.
 -/
@@ -45,34 +48,41 @@ def lenC (q : Quad α) : α := q.lenD1.sqLen
 /-- `b = 2·(d2 · d1)`; the squared speed is `|Q'(t)|² = 4·(a t² + b t + c)` -/
 def lenB (q : Quad α) : α := two * q.lenD2.dot q.lenD1
 
-/-- the test `a < S::value(1e-4) * c` -/
-def almostStraight (q : Quad α) : Bool := decide (q.lenA < FlatConst.value 1 4 * q.lenC)
+/-- `d3 = to − ctrl` (`= d1 + d2`, `Q'(1) = 2·d3`) -/
+def lenD3 (q : Quad α) : P α := q.b - q.c
 
-/-- Legendre–Gauss branch (constants exactly as in the source) -/
+/-- the test `a <= S::value(1e-4) * c` (`<=`: a point, `a = c = 0`, takes the quadrature branch) -/
+def almostStraight (q : Quad α) : Bool := decide (q.lenA ≤ FlatConst.value 1 4 * q.lenC)
+
+/-- Legendre–Gauss branch (constants exactly as in the source); the weights are applied to the
+differences `d1`, `d3`, `chord = to − from`, so the value depends on differences only -/
 def lengthStraight (q : Quad α) : α :=
-  let k0 : α := FlatConst.value 492943519233745 15
   let k1 : α := FlatConst.value 430331482911935 15
   let k2 : α := FlatConst.value 626120363218102 16
-  let v0 := (q.a.smul (-k0) + q.c.smul k1 + q.b.smul k2).len
-  let v1 := ((q.b - q.a).smul (FlatConst.value 4444444444444444 16)).len
-  let v2 := (q.a.smul (-k2) + q.c.smul (-k1) + q.b.smul k0).len
+  let chord := q.b - q.a
+  let v0 := (q.lenD1.smul k1 + chord.smul k2).len
+  let v1 := (chord.smul (FlatConst.value 4444444444444444 16)).len
+  let v2 := (q.lenD3.smul k1 + chord.smul k2).len
   v0 + v1 + v2
 
-/-- the closed form on the coefficients `a b c` -/
-def lengthClosed (a b c : α) : α :=
-  let sqrAbc := Transc.sqrt (a + b + c)
+/-- the closed form on the coefficients `a b c`, with `sqrAbc = |d3|` (`= √(a+b+c)` without the
+cancellation) and `d23 = d2·d3` (`2·d23 = 2a + b`).
+The Rust test `ba_c2 <= EPSILON * c2 || !(num > 0)` is transcribed literally: `¬ (0 < num)` is the
+order statement `num ≤ 0` on a field and is true for a NaN `num` on the float instances (IEEE `<`
+is false on NaN), exactly as `!(num > S::ZERO)` in Rust. -/
+def lengthClosed (a b c sqrAbc d23 : α) : α :=
   let a2 := Transc.pow a (-half)
-  let a32 := a2 * a2 * a2
   let c2 := two * Transc.sqrt c
   let baC2 := b * a2 + c2
+  let num := two * d23 * a2 + two * sqrAbc
   let v0 := half * half * a2 * a2 * b * (two * sqrAbc - c2) + sqrAbc
-  if baC2 < FlatConst.epsilon then v0
-  else v0 + half * half * a32 * (four * c * a - b * b)
-        * Transc.ln (((two * a + b) * a2 + two * sqrAbc) / baC2)
+  if baC2 ≤ FlatConst.epsilon * c2 ∨ ¬ (zero < num) then v0
+  else v0 + half * half * ((four * c * a - b * b) * a2 * a2 * a2) * Transc.ln (num / baC2)
 
 /-- `QuadraticBezierSegment::length` -/
 def length (q : Quad α) : α :=
-  if q.almostStraight then q.lengthStraight else lengthClosed q.lenA q.lenB q.lenC
+  if q.almostStraight then q.lengthStraight
+  else lengthClosed q.lenA q.lenB q.lenC q.lenD3.len (q.lenD2.dot q.lenD3)
 
 end
 end Quad
